@@ -5,6 +5,7 @@ import (
 	"math"
 	"math/rand"
 	"sort"
+	"strings"
 
 	"github.com/EliCDavis/polyform/math/geometry"
 	"polyverif/internal/run"
@@ -138,12 +139,28 @@ func octreeCase(c *run.Ctx) run.Result {
 	if sharedLeaf {
 		leaf = "shared-leaf"
 	}
-	res.Sig = fmt.Sprintf("%s%s|%s|n=%s|d=%d|%s|%s", sc.kind, sc.indexPattern, sc.dist, sizeBucket(n), b.depth, b.how, leaf)
+	sp := ""
+	if sc.special != "" {
+		sp = "+special"
+	}
+	res.Sig = fmt.Sprintf("%s%s|%s%s|n=%s|d=%d|%s|%s", sc.kind, sc.indexPattern, sc.dist, sp, sizeBucket(n), b.depth, b.how, leaf)
 	res.SetAdd("element_kinds", sc.kind)
 	res.SetAdd("layouts", sc.dist)
 	res.SetAdd("constructors", b.how)
 	res.SetAdd("depths", fmt.Sprint(b.depth))
 	res.SetAdd("size_buckets", sizeBucket(n))
+	if sc.special != "" {
+		res.Count("scenes_with_special_coordinates", 1)
+		for _, t := range strings.Split(sc.special, "+") {
+			res.SetAdd("special_coordinate_ingredients", t)
+		}
+		if len(sc.originElems) > 0 {
+			res.Count("scenes_with_zero_extent_element_at_world_origin", 1)
+			if sc.originElems[0] == 0 {
+				res.Count("scenes_with_zero_extent_element_at_world_origin_as_element_0", 1)
+			}
+		}
+	}
 	if sc.indexPattern != "" {
 		res.SetAdd("point_cloud_index_patterns", sc.indexPattern)
 		if len(sc.idx) > len(sc.pos) {
@@ -397,7 +414,13 @@ func checkRange(c *run.Ctx, res *run.Result, sc *scene, b *built, p v3, tol floa
 	diam := sc.diameter()
 	var rad float64
 	var rclass string
-	switch pick(r, []int{15, 10, 15, 35, 10, 15}) {
+	rpick := pick(r, []int{15, 10, 15, 35, 10, 15})
+	if sc.special != "" && r.Intn(5) == 0 {
+		rpick = 6
+	}
+	switch rpick {
+	case 6:
+		rad, rclass = 0.5, "0.5"
 	case 0:
 		rad, rclass = 0, "zero"
 	case 1:
@@ -528,6 +551,28 @@ func isLatticePoint(p v3) bool {
 // ---------------------------------------------------------------- rays
 
 func (sc *scene) queryRay(r *rand.Rand) (o, d v3, tmin, tmax float64, class string) {
+	if sc.special != "" && r.Intn(4) == 0 {
+		// an axis-parallel ray that passes exactly through the world origin
+		k := r.Intn(3)
+		a := []float64{1, 0.5, 2, sc.S * (0.1 + 3*r.Float64()), sc.diameter() * (1 + r.Float64())}[r.Intn(5)]
+		if r.Intn(2) == 0 {
+			a = -a
+		}
+		o[k] = a
+		d[k] = -a / math.Abs(a)
+		switch r.Intn(3) {
+		case 0:
+			tmax = math.Abs(a) * (1 + 2*r.Float64())
+		case 1:
+			tmax = math.Abs(a) // ends exactly at the origin
+		default:
+			tmax = 1000 * sc.diameter()
+		}
+		if r.Intn(5) == 0 { // starts at the origin
+			o = v3{}
+		}
+		return o, d, 0, tmax, "axis-through-origin"
+	}
 	o, oc := sc.queryPoint(r)
 	diam := sc.diameter()
 	var dc string
